@@ -315,4 +315,17 @@ def c12_grouped_cfg(cfg):
         base.IGNORE_FIELDS_FOR_COMPARISON = saved
     return {"violates": not eq or ne or not he, "detail": f"grouped records that differ only in _generated under the ignored fields {cfg}: == {eq}, != {ne}, equal hashes {he}"}
 
-CALLS = {"c12_one_instant": c12_one_instant, "c12_grouped_cfg": c12_grouped_cfg, "c12_config_kind": c12_config_kind, "c12_coincidence": c12_coincidence, "c12_laws": c12_laws, "c12_type": c12_type, "c12_scope": c12_scope, "c12_nan": c12_nan, "c12_random_laws": c12_random_laws}
+
+def c12_dict_keys(k0="1", k1="'1'"):
+    from flow.record import RecordDescriptor
+
+    a_, b_ = eval(k0), eval(k1)
+    DL = RecordDescriptor("c12/dl", [("dictlist", "dl"), ("varint", "k")])
+    d1 = {a_: "a", b_: "b", "z": 1}
+    d2 = {"z": 1, b_: "b", a_: "a"}
+    a = DL(dl=[d1], k=1)
+    b = DL(dl=[d2], k=1, _generated=a._generated)
+    bad = not (a == b) or hash(a) != hash(b) or len({a, b}) != 1
+    return {"violates": bad, "detail": f"dictionaries with the keys {a_!r} / {b_!r} filled in two orders: == {a == b}, equal hashes {hash(a) == hash(b)}, members of a set {len({a, b})}"}
+
+CALLS = {"c12_dict_keys": c12_dict_keys, "c12_one_instant": c12_one_instant, "c12_grouped_cfg": c12_grouped_cfg, "c12_config_kind": c12_config_kind, "c12_coincidence": c12_coincidence, "c12_laws": c12_laws, "c12_type": c12_type, "c12_scope": c12_scope, "c12_nan": c12_nan, "c12_random_laws": c12_random_laws}
